@@ -8,11 +8,14 @@ META = dict(
     assumptions=['output position of the i-th enumerated multi-index is i (C01 units ndindex_at.uf / compute_offset.uf + lemmas/MixedRadix.lean offset_indices_id) -- assumed by name (C10_POS_ENUM)',
                  'the output array satisfies its invariant (element count == product of the shape; C20) -- assumed as data_.size_ == GN when the shapes match',
                  'isequal(shape,shape) is exact (C18 isequal.sv_sv)', 'bounded containers: rank <= 4, element count <= 6 (capacities of the instantiated types; the proof text is macro-expanded over them)'],
-    not_covered=['eval() returning a freshly allocated array (apply_resize path)', 'column-major result layout', 'array::fn(args) front ends', 'the view-specific element semantics (C03/C04/C05 index functions)'],
+    not_covered=['view-specific element semantics beyond the bounded transpose unit', 'eval() returning a freshly allocated array (apply_resize path)', 'column-major result layout', 'array::fn(args) front ends', 'the view-specific element semantics (C03/C04/C05 index functions)'],
 )
 HARNESS = '''  view_t vobj; struct none_t cobj;
   a_self.view = &vobj; a_self.context = &cobj;'''
 UNITS = [
+    Unit('transpose_view_at.bounded', 'c10', 'verif_transpose_at', mode='bp', plain=True, unwind=8, unwind_loops={'.': 8}, timeout=1500, object_bits=12,
+         bounded='rank <= 3, extents 1..6, element count <= 6 (all loops unwound)',
+         clause='(view-specific side) the lazy transpose view yields at every index the element NumPy yields, through the real decorator/indexing/ndarray glue'),
     Unit('evaluator_loop.abstract', 'c10', 'nmtools::array::evaluator_t::operator()[rndarray_t]', mode='bp', harness=HARNESS, unwind=12, timeout=1500, object_bits=12,
          replace=['nmtools::shape[rdecorator_t]', 'nmtools::utils::isequal[rstatic_vector_ul_4_rstatic_vector_ul_4]', 'nmtools::index::ndindex[rstatic_vector_ul_4]',
                   'nmtools::index::ndindex_t::size', 'nmtools::index::ndindex_t::operator[]',
